@@ -202,7 +202,8 @@ def gen_metadata(rng: random.Random, profile: str, res: int, fields: list[str] |
             fields = [f for f in opt if rng.random() < rng.choice([0.1, 0.5, 0.9])]
     for f in fields:
         if f in ("offset", "difficulty", "preview_start", "preview_end"):
-            md[f] = rng.choice([0, 0, 1, 5, 120, 99999999, rng.randint(0, 10**12)]) if hostile else rng.choice([0, 0, 3, 30, 60])
+            md[f] = rng.choice([0, 0, 1, 5, 120, 99999999, rng.randint(0, 10**12), 2**53 + 1, 2**63 - 1, rng.randint(10**17, 10**30)]) if hostile \
+                else rng.choice([0, 0, 3, 30, 60])
         elif f == "player2":
             md[f] = rng.choice(["bass", "rhythm"])
         else:
@@ -272,7 +273,17 @@ def gen_globals(rng: random.Random, profile: str, tm: TempoMap, horizon: int, co
     hostile = profile == "hostile"
     ticks = sorted(rng.choice(interesting_ticks(rng, tm, horizon, 6) or [0]) for _ in range(count))
     globals_, lines = [], []
-    for t in ticks:
+    runs = run_structured_kinds(rng, len(ticks)) if (len(ticks) >= 20 and rng.random() < 0.3) else None
+    for j, t in enumerate(ticks):
+        if runs is not None:
+            kind = runs[j]
+            value = f"r{j}" if rng.random() < 0.8 else gen_event_text(rng, False)[2] or "x"
+            raw = raw_event_text(kind, value)
+            if kind == "text" and (value.startswith("lyric ") or value.startswith("section ") or "\"" in value):
+                value = raw = f"r{j}"
+            lines.append(f"  {fmt_int(rng, t, hostile)} = E \"{raw}\"")
+            globals_.append([t, kind, value])
+            continue
         raw, kind, value = gen_event_text(rng, hostile)
         lines.append(f"  {fmt_int(rng, t, hostile)} = E \"{raw}\"")
         if kind != "none":
@@ -515,3 +526,43 @@ def render_truth(truth: dict, rng: random.Random | None = None, newline: str = "
     for s_ in extra_sections or []:
         sections.append(s_)
     return {"text": render_sections(sections, newline), "truth": truth, "sections": [[n, b] for n, b in sections]}
+
+
+# ------------------------------------------------------------------------------------------ extreme tick magnitudes
+HUGE_BASES = [2**31 - 40, 2**32 - 60, 2**32 + 7, 10**10, 2**40 + 3, 10**12 - 500]
+
+
+def huge_tick_chart(rng: random.Random, base: int | None = None) -> dict:
+    """Every event kind at ticks around 2^31 / 2^32 / 10^10 / 10^12 (tick digit strings of 10-13 digits), with tempi fast
+    enough that all times stay far below 10^6 s; sustains and star-power phrases that cross the power-of-two boundary."""
+    K = base if base is not None else rng.choice(HUGE_BASES)
+    res = rng.choice([192, 480, 960])
+    fast = usable_n(10**9)
+    tempos = [[0, fast], [K - 7, usable_n(10**9 - 1)], [K + 33, usable_n(5 * 10**8)], [K + 90, fast]]
+    offs = sorted(rng.sample(range(0, 120), 14))
+    groups = []
+    for j, o in enumerate(offs):
+        ln = rng.choice([0, 0, 3, 25, 70])
+        lanes = {str(j % 5): ln}
+        if j % 4 == 1:
+            lanes[str((j + 2) % 5)] = rng.choice([0, ln, 11])
+        groups.append({"tick": K + o, "lanes": lanes, "open": None, "forced": j > 0 and j % 5 == 2, "tap": j % 7 == 3})
+    phrases = sorted([[K + rng.randint(-5, 100), rng.choice([0, 1, 5, 40, 200])] for _ in range(5)], key=lambda p: p[0])
+    tevents = sorted([[K + rng.randint(0, 110), rng.choice(["solo", "soloend"])] for _ in range(3)], key=lambda e: e[0])
+    globals_ = sorted([[K + rng.randint(0, 110), rng.choice(["text", "section", "lyric"]), f"v{i}"] for i in range(5)], key=lambda e: e[0])
+    truth = {"resolution": res, "tempos": tempos, "timesigs": [[0, 4, None], [K + 1, 3, 3]], "anchors": [[K - 7, 12345]],
+             "globals": globals_,
+             "tracks": {"GUITAR/EXPERT": {"groups": groups, "phrases": phrases, "tevents": tevents},
+                        "DRUMS/HARD": {"groups": [dict(g) for g in groups[::3]], "phrases": [[K + 2, 30]], "tevents": []}}}
+    case = render_truth(truth)
+    case["horizon"] = K + 400
+    case["profile"] = "huge_ticks"
+    return case
+
+
+def run_structured_kinds(rng: random.Random, n: int) -> list[str]:
+    """event kinds in long same-kind runs (e.g. 40 text events, then lyrics, then sections ...)"""
+    out: list[str] = []
+    while len(out) < n:
+        out += [rng.choice(["text", "text", "lyric", "section"])] * rng.choice([1, 3, 17, 20, 40, 70, 130, 260])
+    return out[:n]
